@@ -132,11 +132,11 @@ func (x *Exec) valueInstr(st *State, b *ssa.BasicBlock, i int, ins ssa.Value, k 
 	case *ssa.TypeAssert:
 		v := x.val(st, ins.X)
 		ut := x.termOf(st, v)
-		okT := x.D.app("is!"+typeShort(ins.AssertedType), []string{ut}, []string{"U"}, "Bool")
+		okT := x.D.app("is_"+typeShort(ins.AssertedType), []string{ut}, []string{"U"}, "Bool")
 		res := v
 		res.GoT = ins.AssertedType
 		if sortOf(ins.AssertedType) != "U" || isStructT(ins.AssertedType) {
-			res = x.unbox(st, x.D.app("as!"+typeShort(ins.AssertedType), []string{ut}, []string{"U"}, sortOf(ins.AssertedType)), ins.AssertedType)
+			res = x.unbox(st, x.D.app("as_"+typeShort(ins.AssertedType), []string{ut}, []string{"U"}, sortOf(ins.AssertedType)), ins.AssertedType)
 		}
 		if ins.CommaOk {
 			return SVal{K: KTuple, Elems: []SVal{res, mkBool(okT)}}, false
@@ -440,10 +440,14 @@ func (x *Exec) binop(st *State, ins *ssa.BinOp) SVal {
 		}
 		return SVal{K: KInt, T: "(" + op + " " + a.T + " " + b.T + ")", GoT: rt}
 	}
-	// non-integer arithmetic / ordering: uninterpreted
+	// non-integer arithmetic / ordering: uninterpreted functions add_T, lt_T, ...
 	ta, tb := x.termOf(st, a), x.termOf(st, b)
 	rs := sortOf(rt)
-	t := x.D.app("op!"+ins.Op.String()+"!"+typeShort(ins.X.Type()), []string{ta, tb}, []string{x.sortOfVal(a), x.sortOfVal(b)}, rs)
+	opName := map[token.Token]string{token.ADD: "add", token.SUB: "sub", token.MUL: "mul", token.QUO: "quo", token.REM: "rem", token.LSS: "lt", token.LEQ: "le", token.GTR: "gt", token.GEQ: "ge"}[ins.Op]
+	if opName == "" {
+		opName = "op" + fmt.Sprint(int(ins.Op))
+	}
+	t := x.D.app(opName+"_"+typeShort(ins.X.Type()), []string{ta, tb}, []string{x.sortOfVal(a), x.sortOfVal(b)}, rs)
 	return x.unbox(st, t, rt)
 }
 
